@@ -125,12 +125,20 @@ def conform(v, wd, name, c, schedules, storage="mem", valclass="ascii", invs=INV
     failures = 0
     cur = trace
     nb = len(schedules)
+    ocfg = None
+    mode = "impl"          # "impl": TraceSync; "obs": ObsSync (after a specification drift)
     while True:
-        r = tlc_trace(wd, name + ".tv", "TraceSync.tla", tcfg, cur)
+        if mode == "impl":
+            r = tlc_trace(wd, name + ".tv", "TraceSync.tla", tcfg, cur)
+        else:
+            r = tlc_trace(wd, name + ".obs", "ObsSync.tla", ocfg, cur)
         nev = sum(1 for _ in open(cur))
         if r["accepted"]:
             v.traces += len(split_behaviours(cur))
             v.events += nev
+            if mode == "obs":
+                v.extra["validated_at_property_level_only"] = \
+                    v.extra.get("validated_at_property_level_only", 0) + len(split_behaviours(cur))
             break
         if r["timed_out"] or (r["rejected_at"] is None and not r["violated"]):
             v.tool_errors.append(f"{name}: trace validation did not finish: {r.get('error')} "
@@ -139,10 +147,12 @@ def conform(v, wd, name, c, schedules, storage="mem", valclass="ascii", invs=INV
         line = r["rejected_at"] if r["rejected_at"] else r.get("violated_at_line", 1)
         k, lines, off = behaviour_at(cur, line)
         bid = json.loads(lines[0]).get("id") if lines else None
+        level = "implementation-level" if mode == "impl" else "property-level"
         what = (f"invariant {r['violated']} violated while following the recorded execution"
                 if r["violated"] else
-                f"recorded step is not a step of the specification: {json.dumps(r['event'])[:300]}")
-        payload = {"kind": "trace-rejection", "check": name, "behaviour": bid,
+                f"recorded step is not a step of the {level} specification: "
+                f"{json.dumps(r['event'])[:300]}")
+        payload = {"kind": "trace-rejection", "check": name, "behaviour": bid, "level": level,
                    "stimulus": stimuli[bid] if bid is not None and bid < len(stimuli) else None,
                    "rejected_event_index": off, "rejected_event": r["event"],
                    "invariant": r["violated"], "trace": [json.loads(x) for x in lines],
@@ -151,7 +161,7 @@ def conform(v, wd, name, c, schedules, storage="mem", valclass="ascii", invs=INV
                                  for k2, v2 in trace_constants(c).items()}}
         known = classify_known(v.pid, lines, r["event"] if isinstance(r["event"], dict) else None)
         drift = False
-        if not known and obs and not r["violated"]:
+        if mode == "impl" and not known and obs and not r["violated"]:
             # property level (DESIGN.md 4.5): the same behaviour judged only by what the
             # properties state; accepted there = the implementation changed shape, not behaviour
             one = os.path.join(wd, f"{name}.b{bid}.ndjson")
@@ -159,20 +169,23 @@ def conform(v, wd, name, c, schedules, storage="mem", valclass="ascii", invs=INV
                 f.writelines(lines)
             ocfg = write_cfg(os.path.join(wd, name + ".obs.cfg"), trace_constants(c), spec="OSpec",
                              invariants=invs, postcondition="Accepted")
-            ro = tlc_trace(wd, name + ".obs", "ObsSync.tla", ocfg, one)
+            ro = tlc_trace(wd, name + ".obs1", "ObsSync.tla", ocfg, one)
             drift = ro["accepted"]
             payload["property_level"] = {"accepted": ro["accepted"], "rejected_event": ro["event"],
                                          "invariant": ro["violated"]}
             if not drift and (ro["timed_out"] or (ro["rejected_at"] is None and not ro["violated"])):
                 v.tool_errors.append(f"{name}: property-level validation did not finish "
                                      f"(see {ro['out']})")
-        if known:
-            v.known.append(f"{known['id']}: {known['what']} (behaviour {bid} of {name})")
-        elif drift:
+        if drift:
             v.drift.append(f"{name} behaviour {bid}: {json.dumps(r['event'])[:200]} is not the step "
                            f"TCSync takes, but the behaviour satisfies the property-level "
-                           f"specification ObsSync")
+                           f"specification ObsSync; all behaviours of this family are now judged "
+                           f"at the property level")
             write_replay(v.pid, f"{name}-b{bid}-drift", payload)
+            mode = "obs"       # validate the whole family at the property level
+            continue
+        if known:
+            v.known.append(f"{known['id']}: {known['what']} (behaviour {bid} of {name})")
         else:
             p = write_replay(v.pid, f"{name}-b{bid}", payload)
             v.violations.append((what, p))
